@@ -714,8 +714,12 @@ theorem Inv_sendStanza_neg {u ut : Option Nat} {c : Conn} (h : Inv u ut c) (it :
 theorem Inv_connOpenStream {u ut : Option Nat} {c : Conn} (h : Inv u ut c) : Inv u ut (connOpenStream c) := by
   unfold connOpenStream; exact Inv_sendRawString' h _ rfl
 
-theorem Inv_negotiationSuccess {u ut : Option Nat} {c : Conn} (h : Inv u ut c) : Inv u ut (negotiationSuccess c) :=
-  h.same (by simp [SameAll])
+theorem Inv_negotiationSuccess {u ut : Option Nat} {c : Conn} (h : Inv u ut c) : Inv u ut (negotiationSuccess c) := by
+  rw [negotiationSuccess_eq]
+  have h1 : Inv u ut (notify { c with negotiated := true } .connect) := h.same (by simp [SameAll])
+  split
+  · exact Inv_sendStanza' h1 _ _ rfl
+  · exact h1
 
 @[simp] theorem xmppDisconnect_frame (c : Conn) :
     same_core[c, xmppDisconnect c] ∧ same_h[c, xmppDisconnect c] := by
